@@ -131,8 +131,10 @@ def body_E1(ctx):
         status[n] = (["ok", "missing"] if n in identity else ["ok", "raises", "missing"])[ctx.choose(2 if n in identity else 3, "fault " + n)]
     raising.update(n for n in names if status[n] == "raises")
     bad = any(v != "ok" for v in status.values())
-    values = {n: i + 10 for i, n in enumerate(names) if status[n] != "missing"}
-    allvalues = {n: i + 10 for i, n in enumerate(names)}
+    # logged values: distinct ints, or (shard "falsy") values a careless presence test confuses with "absent"
+    menu = [None, 0, [], "", False] if sh.get("falsy") else None
+    allvalues = {n: (menu[(i + int(sh["falsy"]) - 1) % len(menu)] if menu else i + 10) for i, n in enumerate(names)}
+    values = {n: v for n, v in allvalues.items() if status[n] != "missing"}
 
     outer = []
     for d in range(depth):
@@ -238,9 +240,9 @@ OBLIGATIONS = [
         "X",
         desc="every subset of raising serializers / missing declared fields x {stand-alone, start, success} x nesting depth: message withheld, one traceback + one serialization_failure in the current context, call returns, serializers called once",
         functions=["Logger.write", "_MessageSerializer.serialize", "write_traceback", "log_message", "_safe_unicode_dictionary"],
-        shards={"quick": [{"fields": 2, "depth": 2, "ser_exc": e} for e in (0, 1, 2, 3)], "thorough": [{"fields": 3, "depth": 3, "ser_exc": e} for e in (0, 1, 2, 3)]},
+        shards={"quick": [{"fields": 2, "depth": 2, "ser_exc": e} for e in (0, 1, 2, 3)] + [{"fields": 2, "depth": 1, "falsy": k} for k in (1, 2, 3, 4, 5)], "thorough": [{"fields": 3, "depth": 3, "ser_exc": e} for e in (0, 1, 2, 3)] + [{"fields": 3, "depth": 2, "falsy": k} for k in (1, 2, 3, 4, 5)]},
         twin=[{"fields": 2, "depth": 2, "twin_label": "fault-nested"}],
         timeout={"quick": 100, "thorough": 600},
-        bounds={"quick": "2 declared fields (one custom serializer: ok/raising/missing; one Field.for_types identity field: ok/missing), 3 message kinds, nesting depth 0-2; failing serializers raise a custom exception, StopIteration, KeyError or TypeError", "thorough": "3 declared fields, depth 0-3"},
+        bounds={"quick": "2 declared fields (one custom serializer: ok/raising/missing; one Field.for_types identity field: ok/missing), 3 message kinds, nesting depth 0-2; failing serializers raise a custom exception, StopIteration, KeyError or TypeError; logged values distinct ints, or None / 0 / [] / empty text / False in every assignment to the fields (depth <= 1)", "thorough": "3 declared fields, depth 0-3"},
     ),
 ]
